@@ -168,3 +168,41 @@ def overwrite_times(vc):
 from . import c01 as _C1
 contract('C16', 'single_frame_injection_on_a_shifted_time_axis', functions=[_C1.ADD, FRAME + '.ts_ext'],
          note="C01's flags_callable_time contract (integrate_path / integrate_t_profile / doppler_smearing, symbolic axis origin T0)")(_C1.flags_callable_time)
+
+
+@contract('C16', 'consolidate_concatenates_in_order_with_absolute_times', functions=[CAD + '.consolidate', CAD + '.tchans', CAD + '.__init__'],
+          note="number of frames enumerated (1-3); per-frame integration counts, start times and contents symbolic")
+def consolidate(vc):
+    """consolidate(): one frame whose rows are the frames' rows in cadence order and whose time axis holds every frame's own sample times made
+    absolute (ts + t_start), for frames of *different* lengths."""
+    m = 1 + vc.choose(3, 'num_frames')
+    fcls, ccls = classref(vc, FRAME), classref(vc, CAD)
+    n = Int('fchans')
+    df, dt, fch1 = Real('df'), Real('dt'), Real('fch1')
+    vc.assume(And(n >= 1, df > 0, dt > 0, fch1 > 0))
+    frames, Ts, t0s = [], [], []
+    for k in range(m):
+        T, t0 = Int(f'tchans{k}'), Real(f't_start{k}')
+        vc.assume(T >= 1)
+        f = vc.interp.call(fcls, [], dict(fchans=n, tchans=T, df=df, dt=dt, fch1=fch1, ascending=True, t_start=t0, seed=Int(f'seed{k}')))
+        f.fields['data'] = symbolic_array(f'D{k}', (T, n))
+        f.fields['ts'] = symbolic_array(f'TS{k}', (T,))          # any local time axis (not necessarily the default one)
+        frames.append(f); Ts.append(T); t0s.append(t0)
+    cad = vc.interp.call(ccls, [], dict(frame_list=list(frames)))
+    out = vc.call(CAD + '.consolidate', cad)
+    vc.cover('reachable')
+    vc.ensure('C16/consolidate/exc/none', out.ok)
+    if not out.ok:
+        return
+    C_ = out.value.fields
+    tot = sum(Ts[1:], Ts[0])
+    vc.ensure('C16/consolidate/post/shapes', And(C_['data'].ndim == 2, eq(C_['data'].shape[0], tot), eq(C_['data'].shape[1], n), C_['ts'].ndim == 1, eq(C_['ts'].shape[0], tot),
+                                                 eq(C_['tchans'], tot), eq(C_['fchans'], n)))
+    r, j = Int('r'), Int('j')
+    off = 0
+    for k in range(m):
+        inr = And(r >= 0, r < Ts[k], j >= 0, j < n)
+        vc.ensure(f'C16/consolidate/post/frame-{k}-rows-in-place', Implies(inr, eq(C_['data'].at((off + r, j)), frames[k].fields['data'].at((r, j)))))
+        vc.ensure(f'C16/consolidate/post/frame-{k}-times-absolute', Implies(And(r >= 0, r < Ts[k]), eq(C_['ts'].at((off + r,)), frames[k].fields['ts'].at((r,)) + t0s[k])))
+        off = off + Ts[k]
+    vc.ensure('C16/consolidate/post/starts-at-the-cadence-start', eq(C_['t_start'], t0s[0]))
